@@ -159,10 +159,38 @@ def coq_make(targets, timeout=1500, clean=False):
     return rc, out
 
 
-def forbidden_scan(dirs=None):
-    """Scan the development for Admitted/Axiom/... (comments stripped). Returns list of hits."""
+def coq_deps(vfile):
+    """Transitive .v dependencies (inside coq/) of coq/<vfile>, from Makefile.coq's dependency file."""
+    dep = os.path.join(COQ, ".Makefile.coq.d")
+    graph = {}
+    if os.path.exists(dep):
+        for line in open(dep).read().replace("\\\n", " ").split("\n"):
+            if ":" not in line:
+                continue
+            lhs, rhs = line.split(":", 1)
+            tgt = [t for t in lhs.split() if t.endswith(".vo")]
+            if not tgt:
+                continue
+            src = tgt[0][:-1]
+            graph.setdefault(src, set()).update(d[:-1] for d in rhs.split() if d.endswith(".vo") and not d.startswith("/"))
+    seen, todo = set(), [vfile]
+    while todo:
+        f = todo.pop()
+        if f in seen:
+            continue
+        seen.add(f)
+        todo += list(graph.get(f, ()))
+    return sorted(seen)
+
+
+def forbidden_scan(files=None):
+    """Scan for Admitted/Axiom/... (comments stripped) in the given files (relative to coq/), or in
+    the whole development.  Returns list of hits."""
     hits = []
-    for p in glob.glob(os.path.join(COQ, "**", "*.v"), recursive=True):
+    paths = [os.path.join(COQ, f) for f in files] if files else glob.glob(os.path.join(COQ, "**", "*.v"), recursive=True)
+    for p in paths:
+        if not os.path.exists(p):
+            continue
         src = open(p, errors="replace").read()
         src = strip_coq_comments(src)
         for i, line in enumerate(src.split("\n"), 1):
@@ -425,8 +453,13 @@ class Check:
             for th in thms:
                 self.obligation(th, "theorem", False, "not checked: build of %s failed at %s" % (base + ".vo", where))
             return False
-        hits = forbidden_scan()
-        self.obligation("no-Admitted/Axiom/unsafe-flags in coq/**/*.v", "scan", not hits, "\n".join(hits))
+        deps = []
+        for t in targets:
+            deps += coq_deps(t[:-1])
+        deps = sorted(set(deps))
+        hits = forbidden_scan(deps)
+        self.coverage["coq_files"] = deps
+        self.obligation("no Admitted/Axiom/Parameter/unsafe flags in the %d .v files the theorems depend on" % len(deps), "scan", not hits, "\n".join(hits))
         try:
             ass = print_assumptions(props_module, thms)
         except RuntimeError as ex:
